@@ -12,17 +12,26 @@ convex region (list of closed half-planes, e.g. `halfPlanes poly`):
        interval IS  {t ∈ [0,1] | s(t) in every half-plane}  (= segment ∩ region), for all inputs;
   `clip_convex_open_strict`, `clip_convex_dropped_on_boundary` — the convention of the code
        (zero-length and boundary-only pieces are not returned) removes nothing of the interior.
-simple, possibly non-convex polygon:
-  `clip_simple_sound_partial`, `clip_simple_piece_off_boundary`, `clip_simple_cover`, `merge_union`.
+simple, possibly non-convex polygon (`clipSimpleRaw`, inside = even–odd rule with the ray along the
+clipped segment, boundary points not inside):
+  `clip_simple_exact_evenodd` — for every parameter t ∈ [0,1] that is not one of the finitely many cut
+       parameters:  t lies in a returned piece  ⇔  s(t) is strictly inside (even–odd).  All inputs,
+       also non-simple polygons.  Parts: `clip_simple_piece_inside` (EVERY point of a returned piece
+       is inside, not only its midpoint: the parity cannot change because the open piece never meets
+       the boundary, `clip_simple_piece_off_boundary`), `clip_simple_dropped_not_inside`,
+       `clip_simple_cover`, `clip_simple_sound_partial`, `merge_union`.
+polygon clipped by the half-spaces of a convex polyhedron (Sutherland–Hodgman):
+  `sh_clip_sound`, `sh_clip_inside_unchanged` (3d, any polygon); `sh2_complete`, `sh2_sound`,
+  `sh2_convex1` … (convex counter-clockwise polygons, in the plane), `sh_clip_planar`,
+  `sh_clip_complete_planar` (transport to 3d).
 
-FULL statement wanted for simple polygons (NOT proved):
-    ∀ t ∈ [0,1],  (∃ (a,b) ∈ clipSimple poly s, a ≤ t ≤ b)  ↔  s(t) ∈ closure (interior poly ∩ s)
-  What is proved: the cut parameters partition [0,1] (`clip_simple_cover`); a piece is returned iff
-  its midpoint is strictly inside (even–odd rule); the open piece meets no polygon edge at all
-  (`clip_simple_piece_off_boundary`, including edges collinear with the segment).
-  What is missing: the topological step "a connected set that does not meet the boundary of a simple
-  polygon is entirely inside or entirely outside" (Jordan curve theorem for polygons) and that the
-  even–odd rule decides the interior; with these two facts the three theorems give the full statement.
+WHAT REMAINS UNPROVED
+  * that the even–odd rule decides the topological interior of a SIMPLE polygon (Jordan curve theorem
+    for polygons, independence of the ray direction).  With it `clip_simple_exact_evenodd` reads
+    "returned pieces = closure (segment ∩ interior)".  For convex polygons the harness compares the
+    fully proved half-plane model with the crossing model on every convex case.
+  * Minkowski–Weyl for convex polygons (region `InPoly` = convex hull of the vertices), see the
+    Sutherland–Hodgman section.
 -/
 import PorepyVerif.C44.Lemmas
 
@@ -147,46 +156,26 @@ theorem clip_convex_dropped_on_boundary (hs : List HP) (s : Seg) (lo hi : Rat)
 
 /-! ### simple (possibly non-convex) polygon -/
 
-theorem dd_ne_zero (s : Seg) (h : s.p ≠ s.q) : dot (s.q.sub s.p) (s.q.sub s.p) ≠ 0 := by
-  intro h0
-  obtain ⟨hx, hy⟩ := dot_self_eq_zero _ h0
-  simp only [Pt.sub] at hx hy
-  apply h
-  obtain ⟨⟨px, py⟩, ⟨qx, qy⟩⟩ := s
-  simp only at hx hy
-  simp only [Pt.mk.injEq]
-  constructor <;> linarith
+theorem mem_raw_iff (poly : List Pt) (s : Seg) (ab : Rat × Rat) :
+    ab ∈ clipSimpleRaw poly s ↔
+      s.p ≠ s.q ∧ ab ∈ pairs (cutsE s (edges poly)) ∧
+        insideAlong s (edges poly) ((ab.1 + ab.2) / 2) = true := by
+  unfold clipSimpleRaw clipSimpleRawE
+  by_cases hpq : s.p = s.q
+  · simp [hpq]
+  · rw [if_neg hpq, List.mem_filter]
+    simp [midIn, hpq]
 
-theorem cuts_in01 (s : Seg) (es : List (Pt × Pt)) (c : Rat) (hc : c ∈ cutsE s es) : 0 ≤ c ∧ c ≤ 1 := by
-  unfold cutsE at hc
-  rw [mem_sortU] at hc
-  rcases List.mem_cons.mp hc with rfl | hc
-  · constructor <;> decide
-  rcases List.mem_cons.mp hc with rfl | hc
-  · constructor <;> decide
-  obtain ⟨e, _, he⟩ := (mem_crossingsE s es c).mp hc
-  have := crossingsEdge_in01 s e c he
-  simpa [in01] using this
-
-/-- soundness (partial, see header): a returned piece is a sub-interval of [0,1] of positive length,
-    its midpoint is strictly inside the polygon, and no boundary crossing parameter lies strictly
-    inside it -/
+/-- soundness (midpoint form): a returned piece is a sub-interval of [0,1] of positive length, its
+    midpoint is strictly inside the polygon (even–odd rule), and no boundary crossing parameter lies
+    strictly inside it -/
 theorem clip_simple_sound_partial (poly : List Pt) (s : Seg) (a b : Rat)
     (h : (a, b) ∈ clipSimpleRaw poly s) :
-    0 ≤ a ∧ a < b ∧ b ≤ 1 ∧ insideStrict poly (s.at ((a + b) / 2)) = true ∧
+    0 ≤ a ∧ a < b ∧ b ≤ 1 ∧ insideAlong s (edges poly) ((a + b) / 2) = true ∧
       ∀ c ∈ crossingsE s (edges poly), ¬ (a < c ∧ c < b) := by
-  unfold clipSimpleRaw clipSimpleRawE at h
-  split_ifs at h with hpq
-  · cases h
-  obtain ⟨hp, hm⟩ := List.mem_filter.mp h
-  obtain ⟨h1, h2, h3, h4⟩ := pairs_spec _ (pairwise_sortU _) a b hp
-  refine ⟨(cuts_in01 s _ a h2).1, h1, (cuts_in01 s _ b h3).2, hm, ?_⟩
-  intro c hc
-  have hcc : c ∈ cutsE s (edges poly) := by
-    unfold cutsE
-    rw [mem_sortU]
-    exact List.mem_cons_of_mem _ (List.mem_cons_of_mem _ hc)
-  exact h4 c hcc
+  obtain ⟨_, hp, hm⟩ := (mem_raw_iff poly s (a, b)).mp h
+  obtain ⟨h0, h1, h2, h3⟩ := pair_facts s _ a b hp
+  exact ⟨h0, h1, h2, hm, h3⟩
 
 /-- the open piece does not meet the polygon boundary at all — not only "no crossing parameter in
     the list": a transversal edge would contribute a crossing parameter, and an edge collinear with
@@ -194,66 +183,63 @@ theorem clip_simple_sound_partial (poly : List Pt) (s : Seg) (a b : Rat)
 theorem clip_simple_piece_off_boundary (poly : List Pt) (s : Seg) (a b : Rat)
     (h : (a, b) ∈ clipSimpleRaw poly s) (t : Rat) (hat : a < t) (htb : t < b) :
     onBoundaryE (edges poly) (s.at t) = false := by
-  obtain ⟨h0, hab, h1, hmid, hno⟩ := clip_simple_sound_partial poly s a b h
-  have hpq : s.p ≠ s.q := by
-    intro e; unfold clipSimpleRaw clipSimpleRawE at h; rw [if_pos e] at h; cases h
-  have hdd := dd_ne_zero s hpq
-  by_contra hb
-  have hb' : onBoundaryE (edges poly) (s.at t) = true := by simpa using hb
-  simp only [onBoundaryE, List.any_eq_true] at hb'
-  obtain ⟨⟨A, B⟩, he, hon⟩ := hb'
-  have ht01 : in01 t = true := by simp only [in01, Bool.and_eq_true, decide_eq_true_eq]; constructor <;> linarith
-  rcases edge_crossing_complete s A B t hdd ht01 hon with hin | ⟨hDE, hA, hprod, hcA, hcB⟩
-  · exact hno t ((mem_crossingsE s _ t).mpr ⟨(A, B), he, hin⟩) ⟨hat, htb⟩
-  · -- collinear overlap: neither end parameter is strictly inside (a,b)
-    have out : ∀ u, (in01 u = true → u ∈ crossingsEdge s (A, B)) → u ≤ a ∨ b ≤ u := by
-      intro u hu
-      by_cases hu01 : in01 u = true
-      · have := hno u ((mem_crossingsE s _ u).mpr ⟨(A, B), he, hu hu01⟩)
-        by_contra hcon
-        rw [not_or] at hcon
-        exact this ⟨not_le.mp hcon.1, not_le.mp hcon.2⟩
-      · simp only [in01, Bool.and_eq_true, decide_eq_true_eq, not_and_or, not_le] at hu01
-        rcases hu01 with h | h
-        · left; linarith
-        · right; linarith
-    have hm : (((a + b) / 2) - param s A) * (((a + b) / 2) - param s B) ≤ 0 := by
-      generalize param s A = tA at *
-      generalize param s B = tB at *
-      rcases mul_nonpos_iff.mp hprod with ⟨h1', h2'⟩ | ⟨h1', h2'⟩
-      · -- tA ≤ t ≤ tB
-        have hA' : tA ≤ a := by rcases out tA hcA with h | h <;> linarith
-        have hB' : b ≤ tB := by rcases out tB hcB with h | h <;> linarith
-        exact mul_nonpos_of_nonneg_of_nonpos (by linarith) (by linarith)
-      · have hA' : b ≤ tA := by rcases out tA hcA with h | h <;> linarith
-        have hB' : tB ≤ a := by rcases out tB hcB with h | h <;> linarith
-        exact mul_nonpos_of_nonpos_of_nonneg (by linarith) (by linarith)
-    have honm := (onSeg_collinear_iff s A B ((a + b) / 2) hdd hDE hA).mpr hm
-    have : onBoundaryE (edges poly) (s.at ((a + b) / 2)) = true := by
-      simp only [onBoundaryE, List.any_eq_true]
-      exact ⟨(A, B), he, honm⟩
-    simp only [insideStrict, insideStrictE, this, Bool.not_true, Bool.false_and] at hmid
-    cases hmid
+  obtain ⟨hpq, hp, hm⟩ := (mem_raw_iff poly s (a, b)).mp h
+  apply pair_off_boundary s _ a b hp (dd_ne_zero s hpq) _ t hat htb
+  simp only [insideAlong, Bool.and_eq_true, Bool.not_eq_true'] at hm
+  exact hm.1
 
-/-- completeness (partial, see header): the cut parameters partition [0,1]; a parameter that is
-    not a cut lies strictly inside exactly one candidate piece, and a candidate piece is returned
-    iff its midpoint is strictly inside the polygon -/
+/-- soundness (every point): EVERY interior point of a returned piece is strictly inside the polygon
+    in the sense of the even–odd rule (off the boundary, odd number of boundary crossings ahead) —
+    the parity cannot change along the piece because the piece never meets the boundary -/
+theorem clip_simple_piece_inside (poly : List Pt) (s : Seg) (a b : Rat)
+    (h : (a, b) ∈ clipSimpleRaw poly s) (t : Rat) (hat : a < t) (htb : t < b) :
+    insideAlong s (edges poly) t = true := by
+  obtain ⟨hpq, hp, hm⟩ := (mem_raw_iff poly s (a, b)).mp h
+  rw [pair_insideAlong_const s _ a b hp (dd_ne_zero s hpq) t hat htb]
+  exact hm
+
+/-- completeness (every point): no interior point of a candidate piece that is NOT returned is
+    strictly inside the polygon (it is on the boundary, or has an even number of crossings ahead) -/
+theorem clip_simple_dropped_not_inside (poly : List Pt) (s : Seg) (hpq : s.p ≠ s.q) (a b : Rat)
+    (hp : (a, b) ∈ pairs (cutsE s (edges poly))) (hn : (a, b) ∉ clipSimpleRaw poly s)
+    (t : Rat) (hat : a < t) (htb : t < b) : insideAlong s (edges poly) t = false := by
+  rw [pair_insideAlong_const s _ a b hp (dd_ne_zero s hpq) t hat htb]
+  by_contra hc
+  apply hn
+  exact (mem_raw_iff poly s (a, b)).mpr ⟨hpq, hp, by simpa using hc⟩
+
+/-- the cut parameters partition [0,1]: a parameter that is not a cut lies strictly inside exactly
+    one candidate piece, and a candidate piece is returned iff its midpoint is strictly inside -/
 theorem clip_simple_cover (poly : List Pt) (s : Seg) (hpq : s.p ≠ s.q) (t : Rat)
     (h0 : 0 ≤ t) (h1 : t ≤ 1) :
     t ∈ cutsE s (edges poly) ∨
       ∃ ab ∈ pairs (cutsE s (edges poly)), ab.1 < t ∧ t < ab.2 ∧
-        (ab ∈ clipSimpleRaw poly s ↔ insideStrict poly (s.at ((ab.1 + ab.2) / 2)) = true) := by
+        (ab ∈ clipSimpleRaw poly s ↔ insideAlong s (edges poly) ((ab.1 + ab.2) / 2) = true) := by
   have hz : (0 : Rat) ∈ cutsE s (edges poly) := by unfold cutsE; rw [mem_sortU]; simp
   have ho : (1 : Rat) ∈ cutsE s (edges poly) := by unfold cutsE; rw [mem_sortU]; simp
-  have hsorted : (cutsE s (edges poly)).Pairwise (· < ·) := by unfold cutsE; exact pairwise_sortU _
-  rcases pairs_cover (cutsE s (edges poly)) hsorted t ⟨0, hz, h0⟩ ⟨1, ho, h1⟩ with h | ⟨ab, hab, h2, h3⟩
+  rcases pairs_cover (cutsE s (edges poly)) (cuts_sorted s _) t ⟨0, hz, h0⟩ ⟨1, ho, h1⟩ with h | ⟨ab, hab, h2, h3⟩
   · left; exact h
   · right
     refine ⟨ab, hab, h2, h3, ?_⟩
-    unfold clipSimpleRaw clipSimpleRawE
-    rw [if_neg hpq, List.mem_filter]
-    simp only [midIn, insideStrict]
-    exact ⟨fun h => h.2, fun h => ⟨hab, h⟩⟩
+    rw [mem_raw_iff]
+    exact ⟨fun h => h.2.2, fun h => ⟨hpq, hab, h⟩⟩
+
+/-- HEADLINE for arbitrary (also non-convex, also non-simple) polygons: up to the finitely many cut
+    parameters, the returned pieces are EXACTLY the parameters of the points of the segment that are
+    strictly inside the polygon in the sense of the even–odd rule -/
+theorem clip_simple_exact_evenodd (poly : List Pt) (s : Seg) (hpq : s.p ≠ s.q) (t : Rat)
+    (h0 : 0 ≤ t) (h1 : t ≤ 1) (hcut : t ∉ cutsE s (edges poly)) :
+    (∃ ab ∈ clipSimpleRaw poly s, ab.1 < t ∧ t < ab.2) ↔ insideAlong s (edges poly) t = true := by
+  constructor
+  · rintro ⟨⟨a, b⟩, hab, h2, h3⟩
+    exact clip_simple_piece_inside poly s a b hab t h2 h3
+  · intro hin
+    rcases clip_simple_cover poly s hpq t h0 h1 with h | ⟨⟨a, b⟩, hab, h2, h3, _⟩
+    · exact absurd h hcut
+    · by_cases hr : (a, b) ∈ clipSimpleRaw poly s
+      · exact ⟨(a, b), hr, h2, h3⟩
+      · have := clip_simple_dropped_not_inside poly s hpq a b hab hr t h2 h3
+        rw [this] at hin; cases hin
 
 /-- merging pieces that share an end point does not change the union -/
 theorem mergeAux_union (cur : Rat × Rat) (rest : List (Rat × Rat)) (hc : cur.1 ≤ cur.2)
@@ -329,6 +315,107 @@ theorem sh_clip_inside_unchanged (hs : List HS) (poly : List P3)
     simp only [shClip, h1]
     exact ih (fun P hP g hg => hin P hP g (List.mem_cons_of_mem _ hg))
 
+/-! ### Sutherland–Hodgman COMPLETENESS for convex polygons (in the plane of the polygon)
+
+Region of a convex counter-clockwise polygon = H-representation `InPoly` (to the left of, or on,
+every edge); `ConvexCCW` = every vertex is in that region.  Proved: clipping by a half-plane list
+loses nothing (`sh2_complete`), adds nothing (`sh2_sound`), and keeps the polygon convex and
+counter-clockwise (so the theorems iterate).  `sh_clip_planar` transports this to the 3d algorithm
+applied to a planar polygon.
+
+NOT proved (what remains for "= polygon ∩ polyhedron as point sets" in the V-representation):
+that for a convex counter-clockwise polygon the region `InPoly` equals the convex hull of the
+vertices (Minkowski–Weyl for polygons).  It matters only in the degenerate outputs: for an output
+with fewer than three distinct vertices `InPoly` is a half-plane intersection that can be larger
+than the hull (e.g. the empty output when nothing of the polygon is inside). -/
+
+/-- completeness, one half-plane: a point of the polygon that satisfies the half-plane is in the
+    clipped polygon -/
+theorem sh2_complete1 (h : HP) (poly : List Pt) (hc : ConvexCCW poly) (X : Pt)
+    (hX : InPoly poly X) (h0 : h.eval X ≤ 0) : InPoly (shClip12 h poly) X :=
+  fun e he => clip_edges_good poly h hc e he X hX h0
+
+/-- soundness, one half-plane: every vertex of the clipped polygon is a point of the polygon that
+    satisfies the half-plane -/
+theorem sh2_sound1 (h : HP) (poly : List Pt) (hc : ConvexCCW poly) (Y : Pt)
+    (hY : Y ∈ shClip12 h poly) : InPoly poly Y ∧ h.eval Y ≤ 0 := by
+  refine ⟨fun e he => ?_, shClip12_sound h poly Y hY⟩
+  exact shClip12_preserves h poly (fun X => leftOf e.1 e.2 X) (fun C D r => leftOf_lerp2 _ _ C D r)
+    (fun P hP => hc P hP e he) Y hY
+
+/-- the clipped polygon is again convex and counter-clockwise -/
+theorem sh2_convex1 (h : HP) (poly : List Pt) (hc : ConvexCCW poly) : ConvexCCW (shClip12 h poly) := by
+  intro V hV
+  obtain ⟨h1, h2⟩ := sh2_sound1 h poly hc V hV
+  exact sh2_complete1 h poly hc V h1 h2
+
+/-- COMPLETENESS for a list of half-planes (the faces of a convex polyhedron seen in the plane of
+    the polygon): every point of the polygon that satisfies all of them is in the result, which is
+    again convex and counter-clockwise -/
+theorem sh2_complete (hs : List HP) (poly : List Pt) (hc : ConvexCCW poly) (X : Pt)
+    (hX : InPoly poly X) (hall : ∀ h ∈ hs, h.eval X ≤ 0) :
+    ConvexCCW (shClip2 hs poly) ∧ InPoly (shClip2 hs poly) X := by
+  induction hs generalizing poly with
+  | nil => exact ⟨hc, hX⟩
+  | cons h hs ih =>
+    simp only [shClip2]
+    exact ih (shClip12 h poly) (sh2_convex1 h poly hc)
+      (sh2_complete1 h poly hc X hX (hall h (by simp))) (fun g hg => hall g (List.mem_cons_of_mem _ hg))
+
+/-- SOUNDNESS for a list of half-planes: every vertex of the result satisfies all half-planes and is
+    a point of the original polygon -/
+theorem sh2_sound (hs : List HP) (poly : List Pt) (Y : Pt) (hY : Y ∈ shClip2 hs poly) :
+    (∀ h ∈ hs, h.eval Y ≤ 0) ∧ (ConvexCCW poly → InPoly poly Y) := by
+  constructor
+  · induction hs generalizing poly with
+    | nil => intro h hh; cases hh
+    | cons h hs ih =>
+      intro g hg
+      simp only [shClip2] at hY
+      rcases List.mem_cons.mp hg with rfl | hg
+      · have := shClip2_preserves hs (shClip12 g poly) (fun X => -g.eval X)
+          (fun C D r => by simp only [eval_lerp2]; ring)
+          (fun P hP => by have := shClip12_sound g poly P hP; linarith) Y hY
+        linarith
+      · exact ih (shClip12 h poly) hY g hg
+  · intro hc e he
+    exact shClip2_preserves hs poly (fun X => leftOf e.1 e.2 X) (fun C D r => leftOf_lerp2 _ _ C D r)
+      (fun P hP => hc P hP e he) Y hY
+
+/-- the 3d algorithm applied to a planar polygon `O + u U + v V` is the 2d algorithm applied to the
+    `(u, v)` coordinates with the half-spaces pulled back to the plane -/
+theorem sh_clip_planar (O U V : P3) (hs : List HS) (poly : List Pt) :
+    shClip hs (poly.map (embed O U V))
+      = (shClip2 (hs.map (pullHS O U V)) poly).map (embed O U V) := by
+  induction hs generalizing poly with
+  | nil => rfl
+  | cons h hs ih => simp only [shClip, List.map_cons, shClip2, shClip1_embed, ih]
+
+/-- … hence for a planar convex polygon and the half-spaces of a convex polyhedron: the result of the
+    3d clipping is the image of a convex counter-clockwise polygon that contains (the coordinates
+    of) every point of the input polygon lying in all half-spaces, and all of whose vertices lie in
+    the input polygon and in all half-spaces -/
+theorem sh_clip_complete_planar (O U V : P3) (hs : List HS) (poly : List Pt) (hc : ConvexCCW poly) :
+    ∃ out : List Pt, shClip hs (poly.map (embed O U V)) = out.map (embed O U V) ∧ ConvexCCW out ∧
+      (∀ p, InPoly poly p → (∀ h ∈ hs, h.eval (embed O U V p) ≤ 0) → InPoly out p) ∧
+      (∀ q ∈ out, InPoly poly q ∧ ∀ h ∈ hs, h.eval (embed O U V q) ≤ 0) := by
+  refine ⟨shClip2 (hs.map (pullHS O U V)) poly, sh_clip_planar O U V hs poly, ?_, ?_, ?_⟩
+  · have : ∀ (gs : List HP) (P : List Pt), ConvexCCW P → ConvexCCW (shClip2 gs P) := by
+      intro gs
+      induction gs with
+      | nil => intro P hP; exact hP
+      | cons g gs ih => intro P hP; exact ih _ (sh2_convex1 g P hP)
+    exact this _ poly hc
+  · intro p hp hall
+    refine (sh2_complete _ poly hc p hp ?_).2
+    intro g hg
+    obtain ⟨h, hh, rfl⟩ := List.mem_map.mp hg
+    rw [← eval_embed]; exact hall h hh
+  · intro q hq
+    obtain ⟨h1, h2⟩ := sh2_sound _ poly q hq
+    refine ⟨h2 hc, fun h hh => ?_⟩
+    rw [eval_embed]; exact h1 _ (List.mem_map.mpr ⟨h, hh, rfl⟩)
+
 /-! ### non-vacuity: concrete data for every theorem -/
 
 section Examples
@@ -367,6 +454,17 @@ example : clipSimple f14 ⟨⟨-1, 9 / 4⟩, ⟨5, 3 / 4⟩⟩ = [(1 / 6, 1 / 2)
 -- Sutherland–Hodgman: the triangle (-1,1,2),(1,1,1),(3,1,2) cut by 0 ≤ x ≤ 2, 0 ≤ z ≤ 2
 example : shClip [⟨1, 0, 0, 2⟩, ⟨-1, 0, 0, 0⟩, ⟨0, 0, 1, 2⟩, ⟨0, 0, -1, 0⟩] [⟨-1, 1, 2⟩, ⟨1, 1, 1⟩, ⟨3, 1, 2⟩]
     = [⟨0, 1, 3 / 2⟩, ⟨1, 1, 1⟩, ⟨2, 1, 3 / 2⟩, ⟨2, 1, 2⟩, ⟨0, 1, 2⟩] := by decide +kernel
+
+-- Sutherland–Hodgman in the plane: the counter-clockwise square is convex; cutting off x > 1
+example : ConvexCCW sq := by
+  intro V hV e he
+  simp only [sq, List.mem_cons, List.not_mem_nil, or_false] at hV
+  simp only [sq, edges, edgesAux, List.mem_cons, List.not_mem_nil, or_false] at he
+  rcases hV with rfl | rfl | rfl | rfl <;> rcases he with rfl | rfl | rfl | rfl <;> decide +kernel
+example : shClip12 ⟨1, 0, 1⟩ sq = [⟨0, 0⟩, ⟨1, 0⟩, ⟨1, 2⟩, ⟨0, 2⟩] := by decide +kernel
+-- a point of the segment through the notch of the U is inside exactly on the returned pieces
+example : insideAlong ⟨⟨-1, 2⟩, ⟨4, 2⟩⟩ (edges uShape) (3 / 10) = true := by decide +kernel
+example : insideAlong ⟨⟨-1, 2⟩, ⟨4, 2⟩⟩ (edges uShape) (1 / 2) = false := by decide +kernel
 
 end Examples
 
